@@ -14,9 +14,41 @@ const (
 	oidInvalDate = "[encoding/asn1.ObjectIdentifier: 2, 5, 29, 24]"
 )
 
-func findExtIdx(exts, oid string) string {
-	return "slices.IndexFunc(" + exts + ", closure{ret (encoding/asn1.ObjectIdentifier).Equal(?λ0.Id, " + oid + ")})"
+// The search for an extension by its object identifier (x509util.FindExtensionByOID, analysed from
+// its source - slices.IndexFunc with a closure or a hand-written loop): extAbsent matches the
+// exhaustion of the search loop over exts for oid, extPresent the comparison that found it.
+const findExtFn = "ncg/revocation/internal/x509util.FindExtensionByOID"
+
+func findExtInst(in *Instance) *Instance {
+	for ; in != nil; in = in.Parent {
+		if in.Fn != nil && in.Name == findExtFn {
+			return in
+		}
+	}
+	return nil
 }
+
+func extAbsent(exts, oid string) LP {
+	return LP{Keyed: true, Desc: "extension " + oid + " not found in " + exts, F: func(l Label) bool {
+		if l.Kind != "rangedone" || l.Key != exts || l.Node == nil {
+			return false
+		}
+		in := findExtInst(l.Node.Inst)
+		return in != nil && len(in.Args) == 2 && in.Args[1].Key() == oid
+	}}
+}
+
+func extPresent(exts, oid string) LP {
+	return LP{Keyed: true, Desc: "extension " + oid + " found in " + exts, F: func(l Label) bool {
+		if l.Kind != "atom" || !l.Pol || l.Implied || l.Node == nil || l.Key != "OidEq("+oid+", re("+exts+").Id)" {
+			return false
+		}
+		return findExtInst(l.Node.Inst) != nil
+	}}
+}
+
+// extValue: the value of the extension the search found.
+func extValue(exts string) string { return "re(" + exts + ").Value" }
 
 // crlTerms names the terms of the CRL root in the entry point's vocabulary.
 type crlTerms struct {
@@ -91,7 +123,7 @@ func checkC05(c *Check) {
 	noDelta := A("+IsNil(" + t.delta + ")")
 	gates := []req{
 		{"download succeeded", A("+IsNil(" + t.ferr + ")")},
-		{"freshest-CRL pointer honoured", AnyOf(A("+Lt("+findExtIdx("p1.Extensions", oidFreshest)+", 0)"), A("-IsNil("+t.delta+")"))},
+		{"freshest-CRL pointer honoured", AnyOf(extAbsent("p1.Extensions", oidFreshest), A("-IsNil("+t.delta+")"))},
 	}
 	for _, r := range crlValidReqs(t.base, "p2") {
 		if strings.HasPrefix(r.name, "\t") {
@@ -111,7 +143,7 @@ func checkC05(c *Check) {
 		req{"delta CRL: base number present", AnyOf(noDelta, A("-IsNil("+t.base+".Number)"))},
 		req{"delta CRL: delta number present", AnyOf(noDelta, A("-IsNil("+t.delta+".Number)"))},
 		req{"delta CRL: number greater than base number", AnyOf(noDelta, A("+BLt("+t.base+".Number, "+t.delta+".Number)"))},
-		req{"delta CRL: indicator present", AnyOf(noDelta, A("-Lt("+findExtIdx(t.delta+".Extensions", oidDeltaInd)+", 0)"))},
+		req{"delta CRL: indicator present", AnyOf(noDelta, extPresent(t.delta+".Extensions", oidDeltaInd))},
 		req{"delta CRL: indicator parses", AnyOf(noDelta, A("+Truth("+t.ind+")"))},
 		req{"delta CRL: indicator not above base number", AnyOf(noDelta, A("-BLt("+t.base+".Number, "+t.ind+"!1)"))},
 	)
@@ -128,7 +160,7 @@ func checkC05(c *Check) {
 	for _, s := range pg.States {
 		for _, e := range s.Out {
 			for _, l := range e.Labels {
-				if l.Kind == "assign" && l.T2 != nil && l.T2.Key() == "&"+t.delta+".Extensions["+findExtIdx(t.delta+".Extensions", oidDeltaInd)+"].Value" {
+				if l.Kind == "assign" && l.T2 != nil && l.T2.Key() == "&"+extValue(t.delta+".Extensions") {
 					indSrcOK = true
 				}
 			}
@@ -138,7 +170,7 @@ func checkC05(c *Check) {
 	for _, s := range pg.States {
 		for _, e := range s.Out {
 			for _, l := range e.Labels {
-				if (l.Kind == "assign") && l.T2 != nil && l.T2.Key() == t.delta+".Extensions["+findExtIdx(t.delta+".Extensions", oidDeltaInd)+"].Value" {
+				if (l.Kind == "assign") && l.T2 != nil && l.T2.Key() == extValue(t.delta+".Extensions") {
 					indSrcOK = true
 				}
 			}
@@ -159,7 +191,7 @@ func checkC05(c *Check) {
 		A("-BLt(" + t.base + ".Number, " + t.delta + ".Number)"),
 		A("+BLt(" + t.base + ".Number, " + t.ind + "!1)"),
 		A("-Truth(" + t.ind + ")"),
-		A("+Lt(" + findExtIdx(t.delta+".Extensions", oidDeltaInd) + ", 0)"),
+		extAbsent(t.delta+".Extensions", oidDeltaInd),
 	}
 	nf := 0
 	for _, f := range fails {
@@ -200,7 +232,7 @@ func checkC05(c *Check) {
 			viols = append(viols,
 				Viol{Name: "CRL number missing", All: []LP{hasDelta, AnyOf(A("+IsNil("+b+".Number)"), A("+IsNil("+d+".Number)"))}},
 				Viol{Name: "delta number not greater than base number", All: []LP{hasDelta, A("-BLt(" + b + ".Number, " + d + ".Number)")}},
-				Viol{Name: "delta indicator missing", All: []LP{hasDelta, A("+Lt(" + findExtIdx(d+".Extensions", oidDeltaInd) + ", 0)")}},
+				Viol{Name: "delta indicator missing", All: []LP{hasDelta, extAbsent(d+".Extensions", oidDeltaInd)}},
 				Viol{Name: "delta indicator does not parse", All: []LP{hasDelta, A("-Truth(" + ind + ")")}},
 				Viol{Name: "delta indicator above base number", All: []LP{hasDelta, A("+BLt(" + b + ".Number, " + ind + "!1)")}},
 			)
